@@ -1,0 +1,27 @@
+//! Verification hooks (only compiled with the `verif-hooks` cargo feature):
+//! a schedule-point callback invoked from `parallel.rs`.
+//!
+//! Nothing in this module is reachable when the feature is off.
+use std::sync::{Arc, RwLock};
+
+/// Callback invoked at schedule points: `(site, packet bytes)`.
+pub type SchedHook = Arc<dyn Fn(&'static str, &[u8]) + Send + Sync>;
+
+static SCHED_HOOK: RwLock<Option<SchedHook>> = RwLock::new(None);
+
+/// Install (or clear) the schedule-point callback.
+pub fn set_sched_hook(hook: Option<SchedHook>) {
+    if let Ok(mut guard) = SCHED_HOOK.write() {
+        *guard = hook;
+    }
+}
+
+pub(crate) fn sched_point(site: &'static str, packet: &[u8]) {
+    let hook = match SCHED_HOOK.read() {
+        Ok(guard) => guard.clone(),
+        Err(_) => None,
+    };
+    if let Some(hook) = hook {
+        hook(site, packet);
+    }
+}
